@@ -88,7 +88,7 @@ COVER = [
     ({"PERM-FLAG-IMPL"}, {"GEN-INTEGRAL-DRIVER"}),
     ({"EXPR-COEF-POS"}, {"GEN-EXPRESSION-IR", "ANALYZE-OBJECTS"}),
     ({"CONJ-LAW"}, {"FACT-DRIVER"}),
-    ({"IDX-SPACE", "PERM-CONSISTENT", "FORM-KERNEL-ALIGN"}, {"GEN-FORM"}),
+    ({"IDX-SPACE", "PERM-CONSISTENT", "FORM-KERNEL-ALIGN", "TYPE-ORDER"}, {"GEN-FORM"}),
 ]
 
 
@@ -141,6 +141,7 @@ DEMOTE = {
     "PERM-CONSISTENT": ({"GEN-FORM"}, lambda key: True),
     "IDX-SPACE": ({"GEN-FORM"}, lambda key: True),
     "FORM-KERNEL-ALIGN": ({"GEN-FORM"}, lambda key: True),
+    "TYPE-ORDER": ({"GEN-FORM"}, lambda key: key.endswith(":type-order") or key.endswith(":type-keys")),
     "BOUND-SAMESRC": ({"GEN-BLOCKS", "GEN-DEFS", "GEN-EXPR"}, lambda key: True),
     "RULE-COHERENCE": ({"GEN-KERNEL"}, lambda key: True),
     "PERM-FLAG-IMPL": ({"GEN-INTEGRAL-DRIVER"}, lambda key: True),
